@@ -42,7 +42,7 @@ DEFAULTS: Dict[str, Any] = dict(
     max_depth=3, ops_per_step=(2, 5), big_corr=False, autograd=False, bwd_annotation=True, step_gap=(0, 1, 1, 7),
     pre_ops=1, post_ops=1, first_step=None, file_order="time", p_plain_rt=0.08, kernel_durs=(0, 1, 5, 20, 60),
     launch_lat=(0, 0, 1, 3, 10), queue_lat=(0, 0, 1, 5, 40), device_pid=0, repeat_names=False, annotation_nest=False,
-    p_leaf_children=(0, 3), ops_pool=None, p_unlaunched=0.0, sync_straddle=False, source_counters=False, outer_frame=False, corr_zero=False, small_corr=False, tid_base=None, tid_desc=False, post_launch=False, exotic_launch=False, multi_process=False, graph_launch=False, p_zero_launch=0.0, nested_driver=False, p_annotation=0.15, main_autograd_op=False, pid_tid_clash=False,
+    p_leaf_children=(0, 3), ops_pool=None, p_unlaunched=0.0, sync_straddle=False, source_counters=False, outer_frame=False, corr_zero=False, small_corr=False, tid_base=None, tid_desc=False, post_launch=False, exotic_launch=False, multi_process=False, graph_launch=False, p_zero_launch=0.0, nested_driver=False, p_annotation=0.15, main_autograd_op=False, pid_tid_clash=False, zero_tie=False,
 )
 
 
@@ -67,6 +67,7 @@ class Sim:
         self.streams = self.r.sample(STREAM_IDS, p["n_streams"])
         self.free_at = {s: 0 for s in self.streams}
         self.last_start = {s: -1 for s in self.streams}
+        self.last_dur: Dict[int, int] = {}
         self.wait_until = {s: 0 for s in self.streams}
         self.sync_until = {s: 0 for s in self.streams}
         self.dev_sync_until = 0
@@ -133,8 +134,13 @@ class Sim:
             return
         lat = self.r.choice([0, 0, 1]) if p["tight"] else self.r.choice(p["launch_lat"])
         qlat = self.r.choice([0, 0, 1]) if p["tight"] else self.r.choice(p["queue_lat"])
-        start = max(ts + lat, self.free_at[s] + qlat, self.wait_until[s], self.sync_until[s], self.dev_sync_until, self.last_start[s] + 1)
+        # zero_tie: the activity after a zero-duration one may start in the same instant (no overlap; the zero-duration one is first)
+        step = 0 if (p["zero_tie"] and self.last_dur.get(s) == 0 and self.r.random() < 0.7) else 1
+        start = max(ts + lat, self.free_at[s] + qlat, self.wait_until[s], self.sync_until[s], self.dev_sync_until, self.last_start[s] + step)
         kd = self.r.choice([0, 1, 2, 3]) if p["tight"] else self.r.choice(p["kernel_durs"])
+        if step == 0 and start == self.last_start[s]:
+            kd = max(kd, 1)                       # at most one zero-duration activity per instant and stream
+        self.last_dur[s] = kd
         dargs = {"correlation": c, "stream": s, "device": p["device_pid"], "External id": c, "context": 1}
         if kind == "k":
             nm = self.r.choice(COMP + COMP + COMM + (OTHERK if self.r.random() < 0.05 else []))
@@ -149,6 +155,7 @@ class Sim:
         if p["graph_launch"] and kind == "k" and self.r.random() < 0.35:
             # a CUDA graph: one launch call, several kernels of the stream that all carry the launch's correlation id
             L["name"] = "cudaGraphLaunch"
+            self.last_dur[s] = 1
             for _ in range(self.r.randint(1, 3)):
                 st2 = self.free_at[s] + self.r.choice([0, 1, 4])
                 kd2 = self.r.choice([1, 2, 7, 30])
